@@ -23,6 +23,8 @@ def run(ctx):
     rule_A5(ctx)        # each evaluated / transferred point is used at most once
     # ... also across a checkpoint resume: the rows, the transfer candidates and their
     # consumed marks reach the file after every batch and come back into the same attributes
+    from ..initrules import rule_I1
+    rule_I1(ctx, {'rows'})
     rule_P4_sampler_subset(ctx, ('points', 'log_l', 'blobs', 'shell_t', 'bound', 'pop_shell', 'add_bound', 'first-batch',
                             'update-shell', 'batch-checkpointed', 'optional-init'),
                            'the stored rows and the transfer set')
